@@ -110,12 +110,23 @@ pub async fn worker(
 	Ok(())
 }
 
+#[cfg_attr(watchexec_verif, allow(unused_mut))]
 pub async fn throttle_collect(
 	config: Arc<Config>,
 	events: priority::Receiver<Event, Priority>,
 	errors: mpsc::Sender<RuntimeError>,
 	mut last: Instant,
 ) -> Result<Option<Vec<Event>>, CriticalError> {
+	// verification seam: read tokio's (pausable) clock instead of the OS clock. The incoming
+	// `last` is never read before being overwritten, so re-binding it changes nothing.
+	#[cfg(watchexec_verif)]
+	use tokio::time::Instant;
+	#[cfg(watchexec_verif)]
+	let mut last = {
+		let _ = last;
+		Instant::now()
+	};
+
 	if events.is_closed() {
 		trace!("events channel closed, stopping");
 		return Ok(None);
